@@ -431,7 +431,292 @@ Proof.
   destruct (snapshot_ok fs _ cur G1 S) as (D1 & R1 & F1 & C1 & _).
   destruct (sync_run fs hist _ _ G1 R1 F1 W2) as (D2 & R2 & F2).
   split; [|split; [|split; [|split; [|split]]]]; auto.
-  - unfold deliverable, deliverableb, delivered. rewrite deliverable_app. now rewrite D1, D2.
+  - unfold deliverable, deliverableb, delivered in *. rewrite deliverable_app. now rewrite D1, D2.
   - rewrite trun_app. now apply gwf_run.
   - unfold delivered. now rewrite !trun_app.
+Qed.
+
+(* ------------------------------------------------------------------ covers *)
+Lemma existsb_in : forall {A} (P : A -> bool) l a, In a l -> P a = true -> existsb P l = true.
+Proof. intros. apply existsb_exists. eauto. Qed.
+
+Lemma covers_obj : forall fs sp u, covers fs sp -> sp_req sp = [] ->
+  opt_matches (sp_obj sp) u = true -> vis_o fs u = true.
+Proof.
+  intros fs sp u C E M. unfold covers, entry_new in C. rewrite E in C. unfold vis_o.
+  destruct (sp_obj sp) as [o|]; cbn in C.
+  - apply existsb_in with (a := FObject (Some o)); [apply C; now left|exact M].
+  - apply existsb_in with (a := FObject None); [apply C; now left|reflexivity].
+Qed.
+
+Lemma covers_svc : forall fs sp u s, covers fs sp -> In s (sp_req sp) ->
+  opt_matches (sp_obj sp) u = true -> vis_s fs u s = true.
+Proof.
+  intros fs sp u s C HI M. unfold covers, entry_new in C. unfold vis_s.
+  destruct (sp_req sp) as [|r req] eqn:E; [destruct HI|]. rewrite <- E in HI.
+  destruct (sp_obj sp) as [o|]; cbn [entry_filters] in C.
+  - apply existsb_in with (a := FService (Some o) (Some s)).
+    + apply C. rewrite map_map. cbn [fst]. rewrite E in HI.
+      change (FService (Some o) (Some s)) with ((fun x => FService (Some o) (Some x)) s). now apply in_map.
+    + cbn. cbn in M. now rewrite M, N.eqb_refl.
+  - apply existsb_in with (a := FService None (Some s)).
+    + apply C. rewrite E in HI. cbn [map]. rewrite map_map. cbn [fst].
+      change (FService None (Some s)) with ((fun x => FService None (Some x)) s).
+      change (FService None (Some r) :: map (fun x => FService None (Some x)) req)
+        with (map (fun x => FService None (Some x)) (r :: req)). now apply in_map.
+    + cbn. now rewrite N.eqb_refl.
+Qed.
+
+(* a Discoverer's listener carries the filters of every entry *)
+Lemma covers_discoverer : forall sps sp, In sp sps -> covers (disc_filters (disc_new sps)) sp.
+Proof.
+  intros sps sp HI f Hf. unfold disc_filters, disc_new. apply in_flat_map.
+  exists (entry_new sp). split; auto. now apply in_map.
+Qed.
+
+(* ------------------------------------------------------------------ the entry's matching = the property's words *)
+Lemma matching_agree : forall fs TG Tl sp u c,
+  gwf TG -> R fs TG Tl -> covers fs sp -> matchingb Tl sp u c = bus_matchingb TG sp u c.
+Proof.
+  intros fs TG Tl sp u c G HR C. unfold matchingb, bus_matchingb.
+  destruct (opt_matches (sp_obj sp) u) eqn:M; [|now rewrite andb_false_r].
+  rewrite andb_true_r. cbn [andb].
+  destruct (sp_req sp) as [|r req] eqn:E.
+  - cbn [req_ok forallb]. rewrite andb_true_r. rewrite (r_obj _ _ _ HR), (covers_obj fs sp u C E M). reflexivity.
+  - rewrite <- E.
+    assert (EQ : req_ok Tl u c (sp_req sp) = req_ok TG u c (sp_req sp)).
+    { unfold req_ok. apply forallb_ext_in'. intros s HI.
+      now rewrite (r_svc _ _ _ HR), (covers_svc fs sp u s C HI M). }
+    rewrite EQ. destruct (req_ok TG u c (sp_req sp)) eqn:RO; [|now rewrite andb_false_r].
+    rewrite andb_true_r. symmetry. apply opt_eqb_true.
+    rewrite req_ok_true in RO. destruct (RO r) as [sc Hs]. { rewrite E. now left. }
+    eapply (g_obj _ G); eauto.
+Qed.
+
+Lemma sget_agree : forall fs TG Tl sp u s,
+  R fs TG Tl -> covers fs sp -> opt_matches (sp_obj sp) u = true -> In s (sp_svcs sp) ->
+  sget (t_svcs Tl) u s = sget (t_svcs TG) u s.
+Proof.
+  intros fs TG Tl sp u s HR C M HI. rewrite (r_svc _ _ _ HR), (covers_svc fs sp u s C); auto.
+  now apply dedup_in.
+Qed.
+
+Lemma transitions_agree : forall fs sp hist TG Tl,
+  gwf TG -> R fs TG Tl -> sfun (t_svcs Tl) -> covers fs sp -> bus_wf_from TG hist = true ->
+  transitions Tl (filter (matches_filters fs) hist) sp = bus_transitions TG hist sp.
+Proof.
+  intros fs sp hist. induction hist as [|ev hist IH]; intros TG Tl G HR F C W; auto.
+  cbn [bus_wf_from] in W. apply andb_true_iff in W as [W1 W2].
+  pose proof (sync_step fs TG Tl ev G HR F W1) as S.
+  pose proof (gwf_step _ _ G W1) as G'.
+  cbn [filter bus_transitions]. destruct (matches_filters fs ev).
+  - destruct S as (S1 & S2 & S3). cbn [transitions]. rewrite (IH _ _ G' S2 S3 C W2). f_equal. f_equal.
+    unfold delta, bus_delta. destruct (ev_obj ev) as [u c].
+    now rewrite (matching_agree fs TG Tl sp u c G HR C), (matching_agree fs _ _ sp u c G' S2 C).
+  - rewrite (IH _ _ G' S F C W2).
+    assert (bus_delta TG ev sp = None) as ->; auto.
+    unfold bus_delta. destruct (ev_obj ev) as [u c].
+    rewrite <- (matching_agree fs TG Tl sp u c G HR C), <- (matching_agree fs _ Tl sp u c G' S C).
+    now destruct (matchingb Tl sp u c).
+Qed.
+
+(* bus_delta is the only change of the matching set at a bus step *)
+Lemma bus_delta_frame : forall TG ev sp u c,
+  gwf TG -> bus_legalb TG ev = true -> (u, c) <> ev_obj ev ->
+  bus_matchingb (tstep TG ev) sp u c = bus_matchingb TG sp u c.
+Proof.
+  intros TG ev sp u c G L NE. unfold bus_matchingb.
+  destruct ev as [u0 c0|u0 c0|ou oc su sc|ou oc su sc]; cbn [ev_obj] in NE.
+  - apply bus_oc_inv in L as [L _]. rewrite (req_ok_svcs TG) by reflexivity.
+    cbn [tstep t_objs]. rewrite aget_cons. eqb_case u0 u; auto. subst u0. rewrite L.
+    assert (c0 <> c) by congruence. cbn [opt_eqb]. apply N.eqb_neq in H. now rewrite H.
+  - apply bus_od_inv in L as [L _]. rewrite (req_ok_svcs TG) by reflexivity.
+    cbn [tstep t_objs]. rewrite aget_adel. eqb_case u0 u; auto. subst u0. rewrite L.
+    assert (c0 <> c) by congruence. cbn [opt_eqb]. apply N.eqb_neq in H. now rewrite H.
+  - apply bus_sc_inv in L as (L & _ & _). cbn [tstep t_objs]. eqb_case ou u.
+    + subst ou. rewrite L. assert (oc <> c) by congruence. cbn [opt_eqb].
+      apply N.eqb_neq in H. now rewrite H.
+    + f_equal. apply req_ok_frame. intros s _. cbn [t_svcs]. rewrite sget_cons. apply N.eqb_neq in E. now rewrite E.
+  - apply bus_sd_inv in L. cbn [tstep t_objs]. eqb_case ou u.
+    + subst ou. rewrite (g_obj _ G _ _ _ _ L). assert (oc <> c) by congruence. cbn [opt_eqb].
+      apply N.eqb_neq in H. now rewrite H.
+    + f_equal. apply req_ok_frame. intros s _. cbn [t_svcs]. rewrite sget_sdel. apply N.eqb_neq in E. now rewrite E.
+Qed.
+
+Lemma nodup_app : forall {A} (a b : list A),
+  NoDup a -> NoDup b -> (forall x, In x a -> In x b -> False) -> NoDup (a ++ b).
+Proof.
+  intros A a b Na Nb H. induction Na as [|x a NI Na IH]; cbn; auto.
+  constructor.
+  - intro HI. apply in_app_or in HI as [HI|HI]; [contradiction|]. eapply H; [now left|eauto].
+  - apply IH. intros y Hy. apply H. now right.
+Qed.
+
+(* ------------------------------------------------------------------ what the snapshot phase emits *)
+Lemma snap_events : forall sp cur T,
+  forallb is_creation cur = true -> deliverable_from T cur = true ->
+  (forall d, In d (transitions T cur sp) ->
+     de_kind d = Created /\ de_key d = sp_key sp /\
+     matchingb T sp (de_u d) (de_c d) = false /\ matchingb (trun T cur) sp (de_u d) (de_c d) = true) /\
+  (forall u c, matchingb (trun T cur) sp u c = true ->
+     matchingb T sp u c = true \/ In (mkDev (sp_key sp) Created u c) (transitions T cur sp)) /\
+  NoDup (transitions T cur sp).
+Proof.
+  intros sp cur. induction cur as [|ev cur IH]; intros T C D.
+  - cbn. split; [|split]; [tauto|auto|constructor].
+  - cbn [forallb] in C. apply andb_true_iff in C as [C1 C2].
+    cbn [deliverable_from] in D. apply andb_true_iff in D as [L D].
+    destruct (IH (tstep T ev) C2 D) as (I1 & I2 & I3).
+    assert (MONO : forall u c, matchingb T sp u c = true -> matchingb (tstep T ev) sp u c = true)
+      by (intros; now apply creation_mono_step).
+    destruct (ev_obj ev) as [u0 c0] eqn:EO.
+    pose proof (delta_spec T ev sp u0 c0 EO) as DS.
+    cbn [transitions trun fold_left]. fold (trun (tstep T ev) cur).
+    split; [|split].
+    + intros d HI. apply in_app_or in HI as [HI|HI].
+      * destruct (matchingb T sp u0 c0) eqn:B; destruct (matchingb (tstep T ev) sp u0 c0) eqn:A;
+          rewrite DS in HI; cbn in HI; try tauto.
+        -- rewrite (MONO _ _ B) in A. discriminate.
+        -- destruct HI as [<-|[]]. cbn. repeat split; auto. now apply creation_mono.
+      * destruct (I1 d HI) as (K1 & K2 & K3 & K4). repeat split; auto.
+        destruct (matchingb T sp (de_u d) (de_c d)) eqn:B; auto. rewrite (MONO _ _ B) in K3. discriminate.
+    + intros u c M. destruct (I2 u c M) as [M'|HI]; [|right; apply in_or_app; now right].
+      destruct (matchingb T sp u c) eqn:B; auto. right. apply in_or_app. left.
+      destruct (N.eq_dec u u0) as [->|NE]; [destruct (N.eq_dec c c0) as [->|NE]|].
+      * rewrite DS, B, M'. now left.
+      * rewrite delta_frame in M'; [congruence|auto|rewrite EO; congruence].
+      * rewrite delta_frame in M'; [congruence|auto|rewrite EO; congruence].
+    + apply nodup_app; auto.
+      * destruct (delta T ev sp); cbn; repeat constructor; auto.
+      * intros d H1 H2. destruct (I1 d H2) as (_ & _ & K3 & _).
+        destruct (matchingb T sp u0 c0) eqn:B; destruct (matchingb (tstep T ev) sp u0 c0) eqn:A;
+          rewrite DS in H1; cbn in H1; try tauto.
+        -- rewrite (MONO _ _ B) in A. discriminate.
+        -- destruct H1 as [<-|[]]. cbn in K3. congruence.
+Qed.
+
+Lemma Forall2_transfer : forall (ss : list uuid) (ids : list (uuid * uuid))
+    (f g : uuid -> option (uuid * uuid)) (c : uuid),
+  (forall s, In s ss -> f s = g s) ->
+  Forall2 (fun s p => fst p = c /\ f s = Some p) ss ids ->
+  Forall2 (fun s p => fst p = c /\ g s = Some p) ss ids.
+Proof.
+  intros ss ids f g c H F. induction F as [|s p ss ids [P1 P2] F IH]; constructor.
+  - split; auto. rewrite <- H; [auto|now left].
+  - apply IH. intros. apply H. now right.
+Qed.
+
+(* ------------------------------------------------------------------ the discoverer against the bus *)
+Lemma view_bus : forall fs pre hist cur sp,
+  bus_wf (pre ++ hist) -> snapshot_of fs (trun t_empty pre) cur -> covers fs sp ->
+  exists e snap,
+    entry_run (entry_new sp) (delivered fs cur hist)
+      = Ok (e, snap ++ bus_transitions (trun t_empty pre) hist sp) /\
+    NoDup snap /\
+    (forall d, In d snap <->
+       exists u c, d = mkDev (sp_key sp) Created u c /\ bus_matchingb (trun t_empty pre) sp u c = true) /\
+    (forall u c, In (u, c) (entry_iter e) <-> bus_matchingb (trun t_empty (pre ++ hist)) sp u c = true) /\
+    NoDup (map fst (entry_iter e)) /\
+    (forall u c, bus_matchingb (trun t_empty (pre ++ hist)) sp u c = true ->
+       entry_object_id e u = Ok (Some c) /\
+       exists ids, entry_service_ids e u (sp_svcs sp) = Ok (Some ids) /\
+         Forall2 (fun s p => fst p = c /\ sget (t_svcs (trun t_empty (pre ++ hist))) u s = Some p)
+                 (sp_svcs sp) ids).
+Proof.
+  intros fs pre hist cur sp W S C.
+  destruct (delivered_ok fs pre hist cur W S) as (D & G & HR & CR & Dc & Rc).
+  assert (W' := W). unfold bus_wf in W'. rewrite bus_wf_app in W'. apply andb_true_iff in W' as [W1 W2].
+  pose proof (gwf_run pre t_empty gwf_empty W1) as G1.
+  destruct (snapshot_ok fs _ cur G1 S) as (_ & _ & F1 & _ & _).
+  destruct (entry_run_ok sp _ D) as (e & ER & I).
+  destruct (inv_view _ _ _ I) as [V1 V2].
+  destruct (snap_events sp cur t_empty CR Dc) as (S1 & S2 & S3).
+  exists e, (transitions t_empty cur sp). split; [|split; [|split; [|split; [|split]]]]; auto.
+  - rewrite ER. f_equal. f_equal. unfold delivered. rewrite transitions_app. f_equal.
+    now apply transitions_agree.
+  - intro d. split.
+    + intro HI. destruct (S1 d HI) as (K1 & K2 & _ & K4). exists (de_u d), (de_c d). split.
+      * destruct d as [k kd du dc]. cbn in *. now subst.
+      * now rewrite <- (matching_agree fs _ _ sp _ _ G1 Rc C).
+    + intros (u & c & -> & M). rewrite <- (matching_agree fs _ _ sp _ _ G1 Rc C) in M.
+      destruct (S2 u c M) as [M0|HI]; auto. rewrite matching_empty in M0. discriminate.
+  - intros u c. rewrite V1. now rewrite (matching_agree fs _ _ sp u c G HR C).
+  - intros u c M. rewrite <- (matching_agree fs _ _ sp u c G HR C) in M. split.
+    + destruct (inv_object_id sp _ e u I (matching_opt _ _ _ _ M)) as (r & Er & Hr).
+      rewrite Er. f_equal. now apply Hr.
+    + destruct (inv_service_ids sp _ e u c I M) as (ids & E1 & E2). exists ids. split; auto.
+      pose proof (matching_opt _ _ _ _ M) as OM.
+      eapply Forall2_transfer; [|exact E2]. intros s HI. cbn beta. eapply sget_agree; eauto.
+Qed.
+
+(* ------------------------------------------------------------------ find / wait against the bus *)
+Lemma filter_split : forall {A} (f : A -> bool) l a b,
+  filter f l = a ++ b -> exists l1 l2, l = l1 ++ l2 /\ filter f l1 = a /\ filter f l2 = b.
+Proof.
+  intros A f l. induction l as [|x l IH]; intros a b H.
+  - cbn in H. symmetry in H. apply app_eq_nil in H as [-> ->]. exists [], []. auto.
+  - cbn [filter] in H. destruct (f x) eqn:E.
+    + destruct a as [|y a].
+      * exists [], (x :: l). cbn [filter app]. rewrite E. auto.
+      * cbn [app] in H. injection H as <- H. destruct (IH _ _ H) as (l1 & l2 & -> & H1 & H2).
+        exists (x :: l1), l2. cbn [filter app]. rewrite E, H1. auto.
+    + destruct (IH _ _ H) as (l1 & l2 & -> & H1 & H2).
+      exists (x :: l1), l2. cbn [filter app]. rewrite E. auto.
+Qed.
+
+Lemma bus_wf_prefix : forall pre h1 h2, bus_wf (pre ++ h1 ++ h2) -> bus_wf (pre ++ h1).
+Proof.
+  intros pre h1 h2 W. unfold bus_wf in *. rewrite app_assoc, bus_wf_app in W.
+  now apply andb_true_iff in W as [W _].
+Qed.
+
+Lemma wait_bus : forall fs pre hist cur sp,
+  bus_wf (pre ++ hist) -> snapshot_of fs (trun t_empty pre) cur -> covers fs sp ->
+  (find_object sp (delivered fs cur hist) = Ok None /\
+   forall h1 h2, hist = h1 ++ h2 ->
+     forall u c, bus_matchingb (trun t_empty (pre ++ h1)) sp u c = false) \/
+  (exists u c ids h1 h2,
+     find_object sp (delivered fs cur hist) = Ok (Some (u, c, ids)) /\ hist = h1 ++ h2 /\
+     bus_matchingb (trun t_empty (pre ++ h1)) sp u c = true /\
+     Forall2 (fun s p => fst p = c /\ sget (t_svcs (trun t_empty (pre ++ h1))) u s = Some p)
+             (sp_svcs sp) ids).
+Proof.
+  intros fs pre hist cur sp W S C.
+  destruct (delivered_ok fs pre hist cur W S) as (D & G & HR & CR & Dc & Rc).
+  assert (W' := W). unfold bus_wf in W'. rewrite bus_wf_app in W'. apply andb_true_iff in W' as [W1 W2].
+  pose proof (gwf_run pre t_empty gwf_empty W1) as G1.
+  destruct (find_object_ok sp _ D) as [[FN HE]|(l1 & ev & rest & u & c & ids & EL & FS & _ & HM & HI)].
+  - left. split; auto. intros h1 h2 -> u c.
+    destruct (delivered_ok fs pre h1 cur (bus_wf_prefix _ _ _ W) S) as (_ & G' & HR' & _).
+    rewrite <- (matching_agree fs _ _ sp u c G' HR' C).
+    apply (HE (delivered fs cur h1) (filter (matches_filters fs) h2)).
+    unfold delivered. now rewrite filter_app, app_assoc.
+  - right. exists u, c, ids.
+    assert (EL' : (l1 ++ [ev]) ++ rest = cur ++ filter (matches_filters fs) hist)
+      by (rewrite <- app_assoc; exact (eq_sym EL)).
+    set (p := l1 ++ [ev]) in *.
+    apply app_eq_app in EL' as [k [[E1 E2]|[E1 E2]]].
+    + (* the match was found beyond the snapshot (or right at its end) *)
+      apply filter_split in E2 as (h1 & h2 & -> & F1 & F2).
+      exists h1, h2. split; auto. split; auto.
+      destruct (delivered_ok fs pre h1 cur (bus_wf_prefix _ _ _ W) S) as (_ & G' & HR' & _).
+      assert (EP : p = delivered fs cur h1) by (unfold delivered; now rewrite F1).
+      rewrite EP in HM, HI. split.
+      * now rewrite <- (matching_agree fs _ _ sp u c G' HR' C).
+      * pose proof (matching_opt _ _ _ _ HM) as OM.
+        eapply Forall2_transfer; [|exact HI]. intros s Hs. cbn beta. eapply sget_agree; eauto.
+    + (* the match was found inside the snapshot: it exists when the listener starts *)
+      exists [], hist. split; auto. split; auto. rewrite app_nil_r.
+      unfold deliverable, deliverableb in Dc. rewrite E1 in Dc, CR.
+      rewrite deliverable_app in Dc. apply andb_true_iff in Dc as [_ Dk].
+      rewrite forallb_app in CR. apply andb_true_iff in CR as [_ Ck].
+      assert (HM' : matchingb (trun t_empty cur) sp u c = true)
+        by (rewrite E1, trun_app; now apply creation_mono).
+      split.
+      * now rewrite <- (matching_agree fs _ _ sp u c G1 Rc C).
+      * pose proof (matching_opt _ _ _ _ HM') as OM.
+        eapply Forall2_transfer with (f := fun s => sget (t_svcs (trun t_empty cur)) u s).
+        -- intros s Hs. cbn beta. eapply sget_agree; eauto.
+        -- eapply Forall2_imp; [|exact HI]. intros s q [Q1 Q2]. split; auto.
+           rewrite E1, trun_app. now apply creation_sget_mono.
 Qed.
